@@ -567,8 +567,9 @@ def mbEv (mbv : Int) : List Event := if mbv = 0 then [] else [.fence .mb]
 
 theorem enqBody_exec (fuel : Nat) (env : Env) (inp : List Val) (nl : Loc) (mbv : Int)
     (h1 : env.vars "q" = some (.ptr L.q)) (h2 : env.vars "node" = some (.ptr nl))
-    (hcfg : env.priv (.glob "CONFIG_RCU_EMIT_LEGACY_MB") = some (.int mbv)) (hwt : EnqInp L inp) :
-    ∃ o, exec fuel enqBody env inp = .ok o ∧ o.env.priv = env.priv ∧
+    (hcfg : env.priv (.glob "CONFIG_RCU_EMIT_LEGACY_MB") = some (.int mbv))
+    (hwt : ∀ t, inp.head? = some t → ∃ tl, t = .ptr tl) :
+    ∃ o, exec fuel enqBody env inp = .ok o ∧ o.env.priv = env.priv ∧ (∀ v ∈ o.inp, v ∈ inp) ∧
       ((inp = [] ∧ o.events = [] ∧ o.ctl = .blocked) ∨
        (∃ tl, inp = [.ptr tl] ∧ o.events = .ld (.field L.q "tail") (.ptr tl) 1 :: mbEv mbv ∧ o.ctl = .blocked) ∨
        (∃ tl nv, inp = [.ptr tl, nv] ∧ o.ctl = .blocked ∧
@@ -582,24 +583,26 @@ theorem enqBody_exec (fuel : Nat) (env : Env) (inp : List Val) (nl : Loc) (mbv :
             .cas (.field L.q "tail") (.ptr tl) nv a 5 5]))) := by
   rcases inp with _ | ⟨t, _ | ⟨nv, _ | ⟨a, rest⟩⟩⟩
   · exact ⟨⟨[], env, [], .blocked⟩, by simp [enqBody, Gen.Src.«_cds_lfq_enqueue_rcu», block, exec, eval, evalArgs,
-      execPrim, asLoc, bind, Except.bind, h1], rfl, Or.inl ⟨rfl, rfl, rfl⟩⟩
-  · obtain ⟨tl, ta, rfl, hta⟩ := hwt
+      execPrim, asLoc, bind, Except.bind, h1], rfl, by simp, Or.inl ⟨rfl, rfl, rfl⟩⟩
+  · obtain ⟨tl, rfl⟩ := hwt t rfl
     by_cases hmb : mbv = 0 <;>
       simp [enqBody, Gen.Src.«_cds_lfq_enqueue_rcu», block, exec, eval, evalArgs, execPrim, asLoc, bind, Except.bind,
         h1, h2, hcfg, Env.setVar, setDst, Val.truthy, evalBin, boolV, mbEv, hmb]
-  · obtain ⟨⟨tl, ta, rfl, hta⟩, -⟩ := hwt
+  · obtain ⟨tl, rfl⟩ := hwt t rfl
     by_cases hmb : mbv = 0 <;>
       simp [enqBody, Gen.Src.«_cds_lfq_enqueue_rcu», block, exec, eval, evalArgs, execPrim, asLoc, bind, Except.bind,
         h1, h2, hcfg, Env.setVar, setDst, Val.truthy, evalBin, boolV, mbEv, hmb]
-  · obtain ⟨⟨tl, ta, rfl, hta⟩, -, -, -⟩ := hwt
+  · obtain ⟨tl, rfl⟩ := hwt t rfl
     by_cases hnv : nv = .int 0
     · subst hnv
       by_cases hmb : mbv = 0 <;>
         simp [enqBody, Gen.Src.«_cds_lfq_enqueue_rcu», block, exec, eval, evalArgs, execPrim, asLoc, bind, Except.bind,
-        h1, h2, hcfg, Env.setVar, setDst, Val.truthy, evalBin, boolV, mbEv, hmb] <;> exact ⟨_, _, _, ⟨rfl, rfl, rfl⟩, rfl, rfl, rfl⟩
+        h1, h2, hcfg, Env.setVar, setDst, Val.truthy, evalBin, boolV, mbEv, hmb] <;>
+        exact ⟨fun v hv => by simp [hv], _, _, _, ⟨rfl, rfl, rfl⟩, rfl, rfl, rfl⟩
     · by_cases hmb : mbv = 0 <;>
         simp [enqBody, Gen.Src.«_cds_lfq_enqueue_rcu», block, exec, eval, evalArgs, execPrim, asLoc, bind, Except.bind,
-        h1, h2, hcfg, Env.setVar, setDst, Val.truthy, evalBin, boolV, mbEv, hmb, hnv] <;> exact ⟨_, _, _, _, ⟨rfl, rfl, rfl, rfl⟩, hnv, rfl, rfl, ⟨rfl, rfl⟩, rfl, rfl, rfl⟩
+        h1, h2, hcfg, Env.setVar, setDst, Val.truthy, evalBin, boolV, mbEv, hmb, hnv] <;>
+        exact ⟨fun v hv => by simp [hv], _, _, _, _, ⟨rfl, rfl, rfl, rfl⟩, hnv, rfl, rfl, ⟨rfl, rfl⟩, rfl, rfl, rfl⟩
 
 /-- the local automaton follows the labels of `evs` from `ls`; where it ends, by how the run ended -/
 def EnqPost (c : Cfg) (ls : LState) (out : Out) (evs : List Event) : Prop :=
@@ -624,7 +627,12 @@ theorem enq_loop (c : Cfg) (fuel : Nat) (nl : Loc) (n : Nat) (mbv : Int) (hn : L
     exact ⟨_, [], rfl, by simp, ls, rfl, rfl, rfl, rfl, Or.inr (Or.inr ⟨rfl, hpc⟩)⟩
   | succ iters ih =>
     intro env inp acc ls h1 h2 hcfg hwt hpc hnode
-    obtain ⟨o, ho, hpriv, hcase⟩ := enqBody_exec L fuel env inp nl mbv h1 h2 hcfg hwt
+    obtain ⟨o, ho, hpriv, -, hcase⟩ := enqBody_exec L fuel env inp nl mbv h1 h2 hcfg (by
+      intro t ht
+      rcases inp with _ | ⟨t', _ | ⟨n', _ | ⟨a', r'⟩⟩⟩ <;> simp at ht <;> subst ht
+      · obtain ⟨l, _, rfl, _⟩ := hwt; exact ⟨l, rfl⟩
+      · obtain ⟨l, _, rfl, _⟩ := hwt.1; exact ⟨l, rfl⟩
+      · obtain ⟨l, _, rfl, _⟩ := hwt.1; exact ⟨l, rfl⟩)
     simp only [iterate, ho, bind, Except.bind]
     have hne : ∀ l : Loc, (Loc.field l "next" = .field L.q "tail") = False := by intro l; simp
     rcases hcase with ⟨rfl, hev, hctl⟩ | ⟨tl, rfl, hev, hctl⟩ | ⟨tl, nv, rfl, hctl, hev⟩ |
